@@ -218,6 +218,7 @@ func (c *Check) runJob(j *Job) (jr *JobResult) {
 		logp = filepath.Join(d, j.Label+".smt2")
 	}
 	s := NewSolver(cfg.Solver, cfg.TimeoutMs, logp)
+	s.AltName, s.AltTimeout = cfg.AltSolver, cfg.AltTimeoutMs
 	defer s.Close()
 	e := NewExec(c.Ld.Prog, cfg)
 	e.s = s
@@ -509,6 +510,10 @@ func (c *Check) writeEvidence(viol int) {
 		"coverage": cov, "assumptions": c.Assumptions, "wall_s": time.Since(c.T0).Seconds(), "violations": viol,
 	}
 	dir := filepath.Join(verifRoot(), "evidence")
+	if d := os.Getenv("SYMGO_EVIDENCE_DIR"); d != "" {
+		// development and seeded-change runs (overlay) must not overwrite the evidence of the real tree
+		dir = d
+	}
 	os.MkdirAll(dir, 0o755)
 	b, _ := json.MarshalIndent(ev, "", " ")
 	os.WriteFile(filepath.Join(dir, c.ID+".json"), b, 0o644)
